@@ -65,7 +65,7 @@ MSG_RE = re.compile(r"^\nparse error near (\S+) \(line (\d+) symbol (\d+) - line
 def gen_grammars(ctx, n, style="mixed"):
     gs = []
     for i in range(n):
-        gg = P.GGen(ctx.rng)
+        gg = P.GGen(ctx.rng) if i % 2 == 0 else P.GGenBT(ctx.rng)
         rules = gg.grammar()
         gs.append(dict(id="g%d" % i, rules=rules, nact=gg.nact))
     return gs
@@ -93,8 +93,7 @@ def corpus_grammars():
 
 
 def make_inputs(ctx, g, n):
-    ins = P.sample_inputs(ctx.rng, n)
-    return ins
+    return P.grammar_inputs(ctx.rng, g["rules"], n)
 
 
 def core_key(ctx, bd):
@@ -189,6 +188,8 @@ def run_core(ctx, opts=("d",), force=False):
                 for hv, (size, width) in enumerate([(-1, "uint32"), (0, "uint16"), (1, "uint64"), (1 << 15, "uint")]):
                     cid = "%s/%s/h%d" % (gid, o, hv)
                     seq = inputs if hv % 2 == 0 else list(reversed(inputs))
+                    if hv >= 2:      # repeated identical inputs, back to back
+                        seq = [x for i_ in seq for x in (i_, i_)]
                     ireqs.append((cid, key, -1, True, size, width, seq))
                     mlines.append("run %s/%s %s 1 1 0 0 %d %s" % (gid, o, cid, FUEL, ";".join(",".join(map(str, B.runes_of(i))) for i in seq)))
                     meta[cid] = dict(g=gid, o=o, kind="history", memo=True, inputs=seq, entry=0, size=size, width=width)
@@ -212,6 +213,15 @@ def run_core(ctx, opts=("d",), force=False):
                 oi["gen"] = mres.get(("gen", "%s/%s" % (gid, o)))
                 if oi.get("compiles"):
                     oi["nils"] = bt.nils((gid, o))
+                # call sites in the emitted code: with or without the failure branch (CheckAlwaysSucceeds)
+                try:
+                    src = open(os.path.join(bt.dir, "pkgs", bt.items[(gid, o)]["pkg"], "parser.go"), encoding="utf-8", errors="replace").read()
+                    calls = {}
+                    for m_ in re.finditer(r"^\s*(if !)?_rules\[rule(\w+)\]\(\)( \{)?\s*$", src, re.M):
+                        calls.setdefault(m_.group(2), set()).add("if" if m_.group(1) else "bare")
+                    oi["calls"] = {k: sorted(v) for k, v in calls.items()}
+                except OSError:
+                    pass
     bt.cleanup()
     ctx.rng = saved_rng
     with open(cache, "w") as f:
@@ -280,7 +290,7 @@ def compare_step(rec, k, im, mo, ginfo):
             for x in mal:
                 k_, b_, e_ = x.split(":")
                 txt = "".join(chr(c) for c in runes[int(b_):int(e_)]).encode("utf-8", errors="surrogatepass").hex()
-                exp.append("%s:%s" % (k_, txt))
+                exp.append("%s:%s" % (actmap.get(k_, "?"), txt))
             if ial != exp:
                 diffs.append(("alog", "impl %s model %s" % (ial, exp)))
     elif im.get("st") == "1":
@@ -368,4 +378,29 @@ def compare_spec(rec):
             out.append(("spec-verdict", "spec fails, machine st=%s" % mo.get("st")))
         elif s.get("ff") != mo.get("max") and rec["o"] in ("d", "i"):
             out.append(("spec-errtoken", "spec %s machine %s" % (s.get("ff"), mo.get("max"))))
+    return out
+
+
+def compare_decisions(gi, o):
+    """generator decisions visible in the emitted code vs. the model's: nil rule slots (inlined / unused /
+    undefined rules) and call sites emitted without a failure branch (CheckAlwaysSucceeds)"""
+    oi = gi["opts"][o]
+    out = []
+    gen = B.parse_obs(oi.get("gen") or "")
+    if not gen or "names" not in oi:
+        return out
+    names = oi["names"]
+    inline, asu, reached = gen.get("inline", ""), gen.get("asu", ""), gen.get("reached", "")
+    rules = P.parse_sexp(oi["model"])[1:]
+    if oi.get("nils") is not None and len(oi["nils"]) == len(names):
+        want = "".join("1" if (rules[i][0] == "N" or inline[i] == "1" or reached[i] == "0") else "0" for i in range(len(names)))
+        if want != oi["nils"]:
+            out.append(("gen-nil-slots", "nil slots: implementation %s, model %s (rules %s)" % (oi["nils"], want, names)))
+    for nm, forms in (oi.get("calls") or {}).items():
+        if nm not in names:
+            continue
+        i = names.index(nm)
+        want = ["bare"] if asu[i] == "1" else ["if"]
+        if forms != want:
+            out.append(("gen-always-succeeds", "call sites of %s are emitted as %s, model decides %s" % (nm, forms, want)))
     return out
